@@ -883,6 +883,19 @@ class Others(object):
         if k == "locate":
             self._note(k, self._cli().one({"op": "Locate"}))
             return
+        if k == "rich-then-destroy":
+            # an object carrying names, groups and application specific information (its own and,
+            # when asked, the target's values) is registered and destroyed again at once
+            extra = [["Name", "gone-%d" % len(self.uids), 0], ["Object Group", "gone-group", 0],
+                     ["Application Specific Information", {"ns": "gone-ns", "data": "gone-data"}, 0]]
+            if s.get("share"):
+                extra = self._extra(True) or extra
+            r = self._cli().one(F.register_item(s.get("t", "SymmetricKey"), label="gone",
+                                                extra_attrs=extra))
+            if self._note("rich", r):
+                self._note("rich-destroy", self._cli().one({"op": "Destroy",
+                                                           "uid": r["payload"]["uid"]}))
+            return
         if k == "read-target":
             self.read_target(s)
             return
@@ -967,6 +980,13 @@ def run_case(spec):
     try:
         others = Others(server, v, spec)
         others.make(spec.get("pre", 0))
+        # history of the store BEFORE the object under test exists: other objects (also with the
+        # same multi-valued attribute values) created, changed, destroyed - in particular the
+        # newest one destroyed right before - and restarts
+        for s in spec.get("before", []):
+            others.step(s)
+        if spec.get("before"):
+            classes.append("store-has-history-before-target")
         base = None
         if how == "derive":
             r = H.Client(server, "alice", None, (1, 2)).one(
